@@ -42,7 +42,7 @@ type UploadCase struct {
 	Handle    string   `json:"handle"` // dsc | changes
 	Files     []UpFile `json:"files"`
 	Ops       []UpOp   `json:"ops"`
-	Fault     string   `json:"fault"`                   // none | src-missing | src-is-dir | dst-squatted | dst-missing | dst-is-file
+	Fault     string   `json:"fault"`                   // none | src-missing | src-is-dir | src-is-empty-dir | dst-squatted | dst-missing | dst-is-file
 	FaultStep int      `json:"faultStep"`               // index into Files, len(Files) = the control file itself
 	FilenameF string   `json:"filenameField,omitempty"` // adversarial "Filename:" field ("" = none; value relative to root)
 	// Stale: before the first operation, destination d1/d2 already hold files with the names of the
@@ -132,7 +132,7 @@ func genUploadCase(t *rapid.T) UploadCase {
 	if rapid.IntRange(0, 2).Draw(t, "hasFault") != 0 {
 		// a directory under a listed name: its content is not "in the control file's own directory",
 		// so it is no more to be moved or deleted than to be copied
-		opts := []string{"src-missing", "src-is-dir"}
+		opts := []string{"src-missing", "src-is-dir", "src-is-empty-dir"}
 		if last.Kind != "remove" {
 			opts = append(opts, "dst-squatted", "dst-squatted", "dst-missing", "dst-is-file")
 		}
@@ -426,8 +426,11 @@ func checkUploadCase(c UploadCase, r *Recorder) error {
 				fault = "none" // faults are planted on plain names only, and on files the library has reason to touch
 			}
 		}
-		if fault == "src-is-dir" && op.Kind == "move" && c.FaultStep >= len(c.Files) {
+		if (fault == "src-is-dir" || fault == "src-is-empty-dir") && op.Kind == "move" && c.FaultStep >= len(c.Files) {
 			fault = "none" // the control file's own path turned into a directory after parsing: renaming it is what was asked for
+		}
+		if fault == "src-is-empty-dir" && c.FaultStep >= len(c.Files) {
+			fault = "none" // the control file's own path: removing / renaming what stands there is what was asked for
 		}
 		switch fault {
 		case "src-missing":
@@ -436,6 +439,10 @@ func checkUploadCase(c UploadCase, r *Recorder) error {
 			os.Remove(filepath.Join(locDir, stepName))
 			os.MkdirAll(filepath.Join(locDir, stepName, "inner"), 0o755)
 			os.WriteFile(filepath.Join(locDir, stepName, "inner", "f"), []byte("x"), 0o644)
+		case "src-is-empty-dir":
+			// an empty directory is what os.Remove deletes and os.Rename moves without complaint
+			os.Remove(filepath.Join(locDir, stepName))
+			os.Mkdir(filepath.Join(locDir, stepName), 0o755)
 		case "dst-squatted":
 			os.RemoveAll(filepath.Join(dstDir, stepName)) // an earlier copy of this history may have left a file there
 			os.MkdirAll(filepath.Join(dstDir, stepName), 0o755)
@@ -501,6 +508,11 @@ func checkUploadCase(c UploadCase, r *Recorder) error {
 				return errf("%s met a directory under the listed name %s (error: %v) and its content is gone from where it was (%v)", op.Kind, stepName, operr, err)
 			}
 		}
+		if fault == "src-is-empty-dir" {
+			if fi, err := os.Lstat(filepath.Join(locDir, stepName)); err != nil || !fi.IsDir() {
+				return errf("%s met an empty directory under the listed name %s (error: %v) and the directory is gone from where it was (%v)", op.Kind, stepName, operr, err)
+			}
+		}
 		if fault != "none" {
 			// ---- a failing step: error, and the control file is not in the destination
 			if operr == nil {
@@ -509,7 +521,7 @@ func checkUploadCase(c UploadCase, r *Recorder) error {
 			if b, _ := os.ReadFile(ctlInDst); op.Kind != "remove" && isRegular(ctlInDst) && (ctlInDstErr != nil || !bytes.Equal(b, ctlInDstBefore)) {
 				return errf("%s failed (%v; fault %s at %s) but the control file %s is in the destination (%d bytes)", op.Kind, operr, fault, stepName, c.ctlName(), len(b))
 			}
-			if op.Kind != "copy" && !(fault != "none" && c.FaultStep == len(c.Files) && (fault == "src-missing" || fault == "src-is-dir")) {
+			if op.Kind != "copy" && !(fault != "none" && c.FaultStep == len(c.Files) && (fault == "src-missing" || fault == "src-is-dir" || fault == "src-is-empty-dir")) {
 				if b, err := os.ReadFile(filepath.Join(locDir, c.ctlName())); err != nil || !bytes.Equal(b, ctlBefore) {
 					return errf("%s failed (%v; fault %s at %s) but the control file is no longer intact at its source", op.Kind, operr, fault, stepName)
 				}
